@@ -199,6 +199,13 @@ class CallMixin:
                     return
                 except NotConst:
                     pass
+            if name in ("set", "frozenset") and len(args) <= 1 and not kw:
+                # a local collection filled step by step: its identity links what goes in with the membership tests on it
+                acc = ("accum", name, st.uid())
+                if args:
+                    self.emit(st, fx, "ACCUM", node, acc=acc, how="init", src=args[0])
+                yield "ok", acc, st
+                return
             yield "ok", ("call", f, tuple(args)), st
             return
         if k == "calllater":
@@ -457,6 +464,12 @@ class CallMixin:
                     self.emit(s_k, fx, "CONSTMAP", node, obj=recv, key=key, hit=True, kval=k, val=v[k], how="get")
                     yield "ok", const(v[k]), s_k
                 return
+        if isinstance(recv, tuple) and recv[0] == "accum":
+            for a in (args or [NONE]):
+                self.emit(st, fx, "ACCUM", node, acc=recv, how=name, src=a)
+            yield "ok", (NONE if name in ("add", "update", "discard", "clear", "remove", "difference_update", "intersection_update")
+                         else ("call", f, tuple(args))), st
+            return
         # deferred firing
         if name in ("callback", "errback") and self._is_deferred(recv):
             self.emit(st, fx, "FIRE", node, dfr=recv, how=name, arg=args[0] if args else NONE,
